@@ -44,17 +44,18 @@ def replay(ctx, data):
 MANIFEST = {
     "text": "Lean 4 model of Authorizer::authenticate_request as written (legacy admin token -> primary provider -> Unix-socket peer; "
             "Ok(None) and Err both fall through), the admin-token comparison (generated from admin_token.rs), the config-file "
-            "provider's login (two user look-ups: name as sent for hash and salt, trimmed+NFKC name for the user record; role must "
-            "allow login) and authenticate, and the session cache with symbolic AEAD (token = base64(nonce|tag|ciphertext), decode = "
+            "provider's login (user looked up under the trimmed+NFKC name; role must allow login) and authenticate, and the session cache with symbolic AEAD (token = base64(nonce|tag|ciphertext), decode = "
             "cache hit or strict base64 + tag verification as term equality + JSON). Theorems: authenticates_iff (admin token "
             "verbatim, or a session sealed under this instance's key with the configured role, or - only if no bearer string is "
             "accepted - the mapped socket peer; never anything on TCP without an accepted bearer), the cache is sound after every "
             "history of requests/logins/logouts/sweeps so it never matters, every issued token is for a configured user with that "
             "user's role, any string that is neither the admin token nor a canonical sealing under the own key is rejected "
             "(truncated, bit-flipped, re-encoded, foreign-key tokens as special cases) and refused on every gated route with no "
-            "server call, login_iff exactly as the code decides, the audit actor is the authenticated id. The full-strength login "
-            "identity statement is proved under 'no two configured names are equal up to trim/NFKC' (login_identity_partial) and "
-            "its negation is proved with a witness that replays on the real daemon (recorded finding F-C20-1).",
+            "server call, login_iff exactly as the code decides, login_identity at full strength (whoever logs in is a configured user "
+            "whose own stored hash matches the password sent - for every configuration and every name/password pair), the audit "
+            "actor is the authenticated id. The pinned tree violated login_identity (two look-ups; finding F-C20-1, fixed by "
+            "2ee45739): the old function is kept as a labelled counter-model with the witness, and the corpus replays the "
+            "confusing logins on the real daemon on every run.",
     "note": "Cryptography is symbolic (term equality); the correspondence uses the real ChaCha20-Poly1305/scrypt code of the daemon "
             "with thousands of mutated tokens. A failed bearer token over the Unix socket of a mapped peer authenticates as the peer "
             "(by design of the chain; the peer could have sent no token); the theorem states this fall-through explicitly. Sessions "
